@@ -15,6 +15,7 @@ import (
 	"sort"
 	"strings"
 	"sync"
+	"sync/atomic"
 	"time"
 
 	apierrors "k8s.io/apimachinery/pkg/api/errors"
@@ -236,6 +237,11 @@ type World struct {
 	answer  map[string]UpEnt // the scripted answer behind `up`, when there is one
 	// DecisionViol: a real probe marked an endpoint healthy although the answer it got is not the healthy answer
 	DecisionViol []string
+	noCursors    bool
+	// BlockNext: when set to 1 the next scripted probe announces itself on Entered and waits for Release before it reports
+	blockNext int32
+	Entered   chan struct{}
+	Release   chan struct{}
 	specDis map[string]bool // spec of the last Sync: endpoint -> marked disabled by some entry
 	specIn  map[string]bool
 	fired   []Fired
@@ -252,7 +258,8 @@ type World struct {
 
 func NewWorld() *World {
 	return &World{byPtr: map[*clusters.EndpointInfo]*epRec{}, byAddr: map[string]*epRec{}, up: map[string]bool{}, answer: map[string]UpEnt{},
-		specDis: map[string]bool{}, specIn: map[string]bool{}, Timeout: 10 * time.Second}
+		specDis: map[string]bool{}, specIn: map[string]bool{}, Timeout: 10 * time.Second,
+		Entered: make(chan struct{}, 8), Release: make(chan struct{}, 8)}
 }
 
 func (w *World) recLocked(e *clusters.EndpointInfo) *epRec {
@@ -278,6 +285,10 @@ func (w *World) healthCheck(e *clusters.EndpointInfo) bool {
 		w.Viol = append(w.Viol, fmt.Sprintf("health probe sent to %s while it is marked disabled", e.Endpoint))
 	}
 	w.mu.Unlock()
+	if atomic.CompareAndSwapInt32(&w.blockNext, 1, 0) {
+		w.Entered <- struct{}{}
+		<-w.Release
+	}
 	w.mu.Lock()
 	ans, hasAns := w.answer[e.Endpoint]
 	w.mu.Unlock()
@@ -465,7 +476,13 @@ func (w *World) Snapshot() ([]EPState, []LbEnt, error) {
 		return true
 	})
 	sort.Slice(eps, func(i, j int) bool { return eps[i].N < eps[j].N })
-	for k, v := range clusters.VerifLoadbalancer(w.CI) {
+	raw, visible := clusters.VerifLoadbalancer(w.CI)
+	if !visible {
+		w.mu.Lock()
+		w.noCursors = true
+		w.mu.Unlock()
+	}
+	for k, v := range raw {
 		ent := LbEnt{C: v, Key: []Ident{}}
 		list := k
 		if i := strings.Index(k, "["); i > 0 {
@@ -515,7 +532,28 @@ func (w *World) RawCursors() map[string]uint64 {
 	if w.CI == nil {
 		return map[string]uint64{}
 	}
-	return clusters.VerifLoadbalancer(w.CI)
+	raw, visible := clusters.VerifLoadbalancer(w.CI)
+	if !visible {
+		w.mu.Lock()
+		w.noCursors = true
+		w.mu.Unlock()
+		return map[string]uint64{}
+	}
+	return raw
+}
+
+// CursorsVisible says whether the shim recognises the representation of the round-robin cursors (one shared table
+// string -> counter in ClusterInfo.loadbalancer). When it does not, cursor comparisons, cursor presets and everything that is
+// read off a cursor are skipped; the streams that observe picks and forwarded traffic go on.
+func (w *World) CursorsVisible() bool {
+	if w.CI != nil {
+		if _, visible := clusters.VerifLoadbalancer(w.CI); !visible {
+			return false
+		}
+	}
+	w.mu.Lock()
+	defer w.mu.Unlock()
+	return !w.noCursors
 }
 
 // ProbesOf is the number of probes an endpoint object has received so far.
@@ -658,6 +696,15 @@ func (w *World) DrainFired() []Fired {
 	}
 	return f
 }
+
+// EndpointPending says whether a tick waits in the channel of an endpoint whose health check is running.
+func EndpointPending(e *clusters.EndpointInfo) bool {
+	st := clusters.VerifEndpointStatus(e)
+	return st.Probing && st.ChanLen > 0
+}
+
+// BlockNextProbe makes the next scripted probe stop at its start (after the "may this endpoint be probed" check) until Release.
+func (w *World) BlockNextProbe() { atomic.StoreInt32(&w.blockNext, 1) }
 
 // DescribeAnswer renders a scripted /healthz answer.
 func DescribeAnswer(u UpEnt) string {
